@@ -49,6 +49,8 @@ GROUPS = {
     "Ports": dict(imports=["TLX.PyRt"], decls=[]),
     "TlsSess": dict(imports=["TLX.PyRt", "TLX.Session"], decls=[]),
     "Reasm": dict(imports=["TLX.PyRt", "TLX.Reassembly"], decls=[]),
+    # the frame class constructors call the two varint functions: this group rests on Varint's definitions
+    "Frames": dict(imports=["TLX.PyRt", "TLX.Gen.Translated.Varint"], decls=[]),
 }
 
 SPECS = [
@@ -229,6 +231,46 @@ def _uniq(xs):
     return list(dict.fromkeys(xs))
 
 
+VARINT_CALLS = {
+    "get_variable_length_int_length": dict(lean="get_variable_length_int_length", args=["Bytes"], ret="Nat", raises=True),
+    "decode_variable_length_int": dict(lean="decode_variable_length_int", args=["Bytes"], ret="Nat", raises=True),
+}
+N, B, BO = "Nat", "Bytes", "Bool"
+# quic_frame.py: the attributes each frame class constructor writes (`self.payload` is `payload_`: the parameter has the name)
+FRAME_CLASSES = [
+    ("PaddingFrame", [("length", N)]),
+    ("GenericFrame", [("length", N), ("frame_length", N), ("data", B)]),
+    ("AckFrame", [("frame_type", N), ("length", N), ("largest_acknowledged", N), ("ack_delay", N), ("range_count", N),
+                  ("first_ack_range", N), ("ack_ranges", "List (Nat × Nat)"), ("ect_0_count", "Option Nat"),
+                  ("ect_1_count", "Option Nat"), ("ect_ce_count", "Option Nat")]),
+    ("ResetStreamFrame", [("length", N), ("stream_id", N), ("application_protocol_error_code", N), ("final_size", N)]),
+    ("StopSendingFrame", [("length", N), ("stream_id", N), ("application_protocol_error_code", N)]),
+    ("CryptoFrame", [("length", N), ("offset", N), ("crypto_length", N), ("crypto", B)]),
+    ("NewTokenFrame", [("length", N), ("token_length", N), ("token", B)]),
+    ("StreamFrame", [("frame_type", N), ("fin", BO), ("len", BO), ("off", BO), ("length", N), ("stream_id", N),
+                     ("server_initiated", BO), ("stream_unidirectional", BO), ("stream_data", "Option Bytes"), ("offset", N),
+                     ("data_length", "Int")]),
+    ("MaxDataFrame", [("length", N), ("maximum_data", N)]),
+    ("MaxStreamDataFrame", [("length", N), ("stream_id", N), ("maximum_stream_data", N)]),
+    ("MaxStreamsFrame", [("frame_type", N), ("length", N), ("maximum_streams", N)]),
+    ("DataBlockedFrame", [("length", N), ("maximum_data", N)]),
+    ("StreamDataBlockedFrame", [("length", N), ("stream_id", N), ("maximum_stream_data", N)]),
+    ("StreamsBlockedFrame", [("frame_type", N), ("length", N), ("maximum_streams", N)]),
+    ("NewConnectionIdFrame", [("length", N), ("sequence_number", N), ("retire_prior_to", N), ("connection_id_length", N),
+                              ("connection_id", B), ("stateless_reset_token", B)]),
+    ("RetireConnectionIdFrame", [("length", N), ("sequence_number", N)]),
+    ("PathChallengeFrame", [("data", B)]),
+    ("PathResponseFrame", [("data", B)]),
+    ("ConnectionCloseFrame", [("frame_type", N), ("length", N), ("error_code", N), ("close_frame_type", "Option Nat"),
+                              ("reason_phrase_length", N), ("reason_phrase", B)]),
+    ("DatagramFrame", [("frame_type", N), ("len_bit", BO), ("payload_", B), ("length", N)]),
+]
+for _cls, _attrs in FRAME_CLASSES:
+    SPECS.append(dict(name=_cls + "_init", group="Frames", file="tlexport/quic/quic_frame.py", func=_cls + ".__init__",
+                      params=[("payload", "Bytes")], ret="None", drop_calls=["super().__init__(src_packet)"], calls=VARINT_CALLS,
+                      raise_state=False,
+                      places=[("self." + a.rstrip("_"), a, t, "rw") for a, t in _attrs]))
+
 THEOREMS = _uniq(theorem_of(s) for s in SPECS)
 
 
@@ -246,7 +288,7 @@ MODULES = group_modules(GROUPS)          # all groups (`TLX.Props.Translated` im
 # property → the groups whose translated functions its model functions are (what the check proves besides its own modules)
 CHECK_GROUPS = {
     "C01": ["TlsSess"],
-    "C02": ["QuicDissect", "QuicSess", "Pn", "Varint"],
+    "C02": ["QuicDissect", "QuicSess", "Pn", "Varint", "Frames"],
     "C03": ["TlsSess", "QuicDissect"],
     "C04": ["Demux", "QuicSess", "QuicDissect"],
     "C05": ["Reasm"],
@@ -254,7 +296,7 @@ CHECK_GROUPS = {
     "C10": ["Ports"],
     "C13": ["TlsSess"],
     "C16": ["Pn"],
-    "C17": ["Varint"],
+    "C17": ["Varint", "Frames"],
     "C18": ["Demux"],
 }
 BY_CHECK = {c: (group_modules(g), group_theorems(g)) for c, g in CHECK_GROUPS.items()}
